@@ -105,7 +105,7 @@ def gen(tier: str, seed: int):
     gated = gated_features()
     cfg = c10.make_cfg(gated)
     groups = []
-    n_random = 5 if tier == "quick" else 50
+    n_random = 5 if tier == "quick" else 120
     packs = [("ties", tie_package(rng, gated), ["--docstyle", "numpydoc"]), ("ties-nc", tie_package(rng, gated), ["-nc"])]
     for i in range(n_random):
         pkg = pg.random_pkg(rng, cfg)
@@ -123,7 +123,7 @@ def gen(tier: str, seed: int):
         "src/proj/zeta/pkg3/mod3.py": "def near() -> None: ...\n",
     }
     packs.append(("nonpackage-src", layout, []))
-    extra = 0 if tier == "quick" else 24
+    extra = 0 if tier == "quick" else 40
     for name, files, opts in packs:
         ref = Case(cid=f"c08-{name}-ref", files=files, opts=opts, hashseed="0", meta={"group": name}, reach=REACH)
         if name == "nonpackage-src":
